@@ -233,3 +233,36 @@ def _best(k, facts):
             if m2 and m2.group(1) == m.group(1) and m2.group(2) == m.group(2) and m2.group(4) == m.group(4):
                 return cand
     return None
+
+
+ORDERED_ACC = _re.compile(r"^(std::vec::Vec<|alloc::vec::Vec<|std::string::String$|alloc::string::String$|\(\)$|usize$|std::collections::VecDeque<)")
+
+
+def accumulators(m, facts):
+    """[(owner E1 key or MIR path, combinator, accumulator type, ordered?)] for every winnow repeat/separated/repeat_till call
+    of the crate: the collection the repeated results are gathered in (third generic argument)."""
+    from . import facts as F
+
+    out = []
+    for p, b in sorted(m.bodies.items()):
+        for c in b["calls"]:
+            cal = c["callee"]
+            if cal in ("winnow::combinator::repeat", "winnow::combinator::separated", "winnow::combinator::repeat_till"):
+                g = c["generics"]
+                g = g[1:-1] if g.startswith("[") and g.endswith("]") else g
+                parts = F.split_generics(g.replace("[", "<").replace("]", ">"))
+                acc = parts[2].strip() if len(parts) > 2 else "?"
+                out.append((e1_key(p, facts) or _re.sub(r"::\{closure#\d+\}", "", p), cal.split("::")[-1], acc, bool(ORDERED_ACC.match(acc))))
+    return out
+
+
+def order_rule(c, facts, rule, owners, why):
+    """One obligation per winnow accumulation in the given functions: results are gathered in input order."""
+    m = load(True)
+    n = 0
+    for owner, comb, acc, ok in accumulators(m, facts):
+        if owners is not None and not any(o == owner or (o.endswith("*") and owner.startswith(o[:-1])) for o in owners):
+            continue
+        n += 1
+        c.ob(rule, owner, "%s collects into %s" % (comb, _re.sub(r"(std|alloc)::(\w+::)*", "", acc)[:50]), ok, "%s(..) in %s gathers its results in `%s` — %s: %s" % (comb, owner, acc[:90], "a sequence in input order" if ok else "NOT an order-preserving sequence: elements are reordered and/or merged", why), nontrivial=False)
+    return n
